@@ -383,3 +383,24 @@ Example c07_steps_outcome_nonvacuous :
     aso_retry (att_opt x) = 2%nat /\ att_natt x = 2%nat /\ att_started x = 2%nat /\
     att_decided x = [(0, -1); (0, -1)] /\ att_onerr x = [-1].
 Proof. eexists. split; [vm_compute; reflexivity|]. repeat split; vm_compute; reflexivity. Qed.
+
+(* (D21) provenance of the decisions, for every reachable state of the fixed step model: decision k of task t is
+   (nil, DeadlineExceeded) or the pair returned by the handler invocation of attempt k of t -- there is an attempt
+   record with ata_task = t, ata_no = k whose handler has returned (ata_hst = 2), and the pair is the one scripted
+   for the invocation index ata_bi recorded when that handler was started (ast_step_pc: the i-th INVOCATION of a
+   task's handler behaves as element i of aso_behs).  Proof (proofs/AntsStepsProv.v, AntsStepsProv2.v): the pair is
+   carried unchanged from the handler's return (pc AstICtx) through the callback's ctx1.Done() test (AstISend: the
+   pair or the timeout pair), the per-attempt channel, the dispatcher's select (AstDStoreRes) to the store; task
+   options, an attempt's task / number and, once started, its invocation index never change.  With
+   ants_steps_result_matches: what Get2 returns is the timeout pair or the pair of the deciding attempt's handler. *)
+From Got Require Import AntsStepsProv AntsStepsProv2.
+
+Theorem ants_steps_decisions_from_handlers :
+  forall n progs s t x k p,
+    ast_reach AstFixed n progs s -> nth_error (ast_tasks s) t = Some x -> nth_error (att_decided x) k = Some p ->
+    p = (0, ast_err_deadline) \/
+    exists a y, nth_error (ast_atts s) a = Some y /\ ata_task y = t /\ ata_no y = k /\ ata_hst y = 2%nat /\
+      p = (asb_val (nth (ata_bi y) (aso_behs (att_opt x)) ast_dummy_beh),
+           asb_err (nth (ata_bi y) (aso_behs (att_opt x)) ast_dummy_beh)).
+Proof. exact ast_steps_decisions_from_handlers. Qed.
+Print Assumptions ants_steps_decisions_from_handlers.
